@@ -62,7 +62,7 @@ def keys(ctx, rule):
         T = "try(Iterator::next(var:Peekable<IntoIter<RawToken>>))"
         START = "<indirect>(%s)" % T
         ctx.check(q.shape(a.field("start")) == START, rule, c.path, "start", "a stretch starts at the token's key", detail=q.shape(a.field("start")))
-        want_end = "cmp::min(Option::map_or(Peekable::peek(var:Peekable<IntoIter<RawToken>>),tuple(4294967295,4294967295),arg2),tuple(%s.0,4294967295))" % START
+        want_end = "cmp::min(Option::map_or(Peekable::peek(var:Peekable<IntoIter<RawToken>>),tuple(Not(0),Not(0)),arg2),tuple(%s.0,Not(0)))" % START
         ctx.check(q.shape(a.field("end")) == want_end, rule, c.path, "end", "it ends at the next token's key or the end of its line, whichever comes first (last stretch: end of line)", detail=q.shape(a.field("end")))
         ctx.check(q.shape(a.field("value")) == T, rule, c.path, "value", "and carries the token")
         ind = [t for bi, t in c.calls() if t.get("callee") is None]
